@@ -4,6 +4,8 @@ import c03
 import tc
 import luatpl
 from tc import TC
+from hir import nodes, last
+from engines import arm_alternatives
 
 EXPLANATION = (
     "Decides, on the Lua AST of preamble.lua (own parser) and the checker's accept tables: (ARITH) the tuple metamethods "
@@ -249,5 +251,14 @@ def checker(F, rep, mf):
                "IR::%s reaches Lua as `%s` (expected `%s`): the metamethod Lua dispatches to is the one named after the operator, operands in order" % (irop, got, text))
     s = luatpl.summary(T, "Neg")
     rep.ob("CHECKER-AGREES", "emission|Neg", luatpl.render(s["value"]) == "(-{expand:1})", "unary minus reaches Lua as (-a): __unm on tuples")
-    rep.info("the checker is stricter than the statement in one place: unary `-` on a tuple is rejected at compile time "
-             "(Constraint::Neg accepts int/float only) although __TUPLE_META.__unm exists")
+    fneg = F.fns.get(TC + "neg")
+    on_tuple = False
+    if fneg is not None:
+        for m in nodes(fneg["body"], "Match"):
+            for arm, alt, vp in arm_alternatives(m):
+                if vp and last(vp) == "Tuple" and not tc.is_err_value(arm["body"]):
+                    on_tuple = True
+    rep.ob("CHECKER-AGREES", "neg|tuple", on_tuple and ("__TUPLE_META", "__unm") in mf,
+           "unary `-` on a tuple is admitted by the checker (element-wise) and __TUPLE_META.__unm exists" if on_tuple else
+           "unary `-` on a tuple is rejected at compile time (Constraint::Neg admits int/float only) although the statement "
+           "and __TUPLE_META.__unm provide element-wise negation", (fneg or {}).get("sp"))
